@@ -172,6 +172,13 @@ Applied(r) ==
 \* C11 (action property): a rejected call leaves everything as it was
 RejectIsNoop(r) == r.res = "err" => UNCHANGED <<tags, flags, jobs, use, during, toConv, cache, indexes, files, nextID, allS, settings>>
 
+\* conformance of the event stream: what the listener of the harness was told since the previous row is what the step announces
+EventsOK(r) ==
+    LET ev  == r.ev
+        got == IF "evs" \in DOMAIN r THEN r.evs ELSE <<>>
+        exp == Announced(ev.a, r.res = "ok", Opt(ev, "name", ""), Opt(ev, "new", ""), IF ev.a = "ViewConvert" THEN ev.convs[1] ELSE "")
+    IN Range(got) = exp /\ Len(got) = Cardinality(exp)
+
 TraceInit == l = 0 /\ Init
 
 TraceNext ==
@@ -183,6 +190,7 @@ TraceNext ==
              /\ (r.ev.a = "CrashRestart" /\ r.res = "ok" /\ "pre" \in DOMAIN r) => (RestartOK(r) \/ Say("nonconf", r, "restart"))
           \/ /\ r.n # 0
              /\ (StepOK(r) \/ Say("nonconf", r, "step"))
+             /\ (r.ev.a # "CrashRestart" => (EventsOK(r) \/ Say("nonconf", r, "events")))
              /\ Chk(RejectIsNoop(r), r, "C11.RejectIsNoop")
              /\ Chk(Applied(r), r, "C11.Applied")
 
